@@ -30,6 +30,9 @@ const std::vector<Prof> kKmg = {
     {0, 0, 0},                                    // empty
     {(1LL << 31), (1LL << 31) / 100 * 105, 0},    // grew 1.05x (ratio ~1.258 after the warm-up)
     {0, (1LL << 31), 0},                          // appeared from nothing
+    {(1LL << 30), (1LL << 30), 0},                // 1 GiB steady: two of these next to the 2 GiB one put it EXACTLY at size_threshold=50
+    {5LL << 29, 5LL << 29, 3LL << 29},            // 2.5 GiB steady, 1.5 GiB protected (effective 1 GiB): with the next one and the 1 GiB one it
+    {3LL << 29, 3LL << 29, 0},                    // sits exactly at size_threshold=50 while 1.5 GiB steady has the larger effective usage
 };
 // 1074266112 = exactly 50% of the SwapTotal of memory configuration 1 ((2^21+1024) kB, not a multiple of 100 bytes): a usage AT the
 // percentage threshold is not above it
@@ -298,8 +301,11 @@ struct C09 : vr::Driver {
       }
       for (int i = 0; i < N; i++) {
         ld tolT = T * 1e-9L + 1, tolR = ratio[i] * (1e-5L + (avgv[i] > 0 ? 8 / avgv[i] : 0));
-        bool size1 = usage[i] >= T;
-        if (fabsl(usage[i] - T) <= tolT && stv[P[N]] != 0) open = true;
+        // "holding at least size_threshold % of the siblings' total": exact while the total is exactly representable (< 2^53);
+        // only beyond that is a sibling sitting on the threshold left open
+        bool exactT = total < 9007199254740992.0L;
+        bool size1 = exactT ? usage[i] >= floorl(T) : usage[i] >= T;
+        if (!exactT && fabsl(usage[i] - T) <= tolT && stv[P[N]] != 0) open = true;
         bool grow = ratio[i] >= grv[P[N + 1]] && eff[i] >= effThr;
         if (fabsl(ratio[i] - grv[P[N + 1]]) <= tolR) open = true;
         if (avgv[i] > 0 && avgv[i] < 1000) open = true;  // integer EWMA of tiny values: left open
@@ -402,7 +408,7 @@ struct C09 : vr::Driver {
   }
   std::string rule() override {
     return "flat sets of 3 equally-preferred siblings (kill_by_memory_size_or_growth also 4 and 5 siblings over 6 profiles, where growing_size_percentile selects a different rank), dry=true, first choice = cgroup named by the '(dry)' record of the evaluation tick. "
-           "kill_by_memory_size_or_growth: 10 (previous usage, usage, memory.low) profiles per sibling (sizes 0..2^61, 2^31 and 2^32 boundaries, "
+           "kill_by_memory_size_or_growth: 13 (previous usage, usage, memory.low) profiles per sibling (sizes 0..2^61, 2^31 and 2^32 boundaries, "
            "growth x1/x1.05/x1.25/x2/from nothing, half/fully protected) after a 5-tick warm-up x size_threshold {0,50,100} x min_growth_ratio "
            "{1,1.25,1.5} x growing_size_percentile {0,50,80,99}; kill_by_swap_usage: swap {0,1,2^20,exactly 50% of a SwapTotal that is no multiple of 100,2^31-4096,2^31,2^32+4096,(2^40,2^61)} per sibling x 4 "
            "(SwapTotal,MemTotal) pairs around 2^31/2^32 x threshold {default,0,50%,1.5G,4096K,2048} x biased x protection; kill_by_pressure: 8 "
